@@ -528,6 +528,25 @@ def path_resolve(path, expr, before_index=None, depth=6):
   return expr
 
 
+def path_dotted(path, expr, before_index=None, depth=6):
+  """Dotted text of `expr` on the path, with a local name at the root of the
+  attribute chain replaced by what it stands for (`r = self.rec; x = r.a;
+  x.append` -> 'self.rec.a.append'); None if not a plain chain."""
+  e = path_resolve(path, expr, before_index, depth)
+  attrs = []
+  while isinstance(e, ast.Attribute) and depth > 0:
+    attrs.append(e.attr)
+    e = e.value
+    if isinstance(e, ast.Name):
+      r = path_resolve(path, e, before_index, depth)
+      if r is not e:
+        e = r
+        depth -= 1
+  if not isinstance(e, ast.Name):
+    return None
+  return '.'.join([e.id] + attrs[::-1])
+
+
 def walk_paths(cfg, decide, follow_exc=None, max_paths=4096, max_len=600,
                start=None):
   """Enumerates paths from entry to an exit.
